@@ -32,7 +32,7 @@ BOUNDS = {"quick": "advance: all m >= 0; ensemble k<=2, 3 walkers, 2 calls; run_
 TECHNIQUE = "AST-to-SMT integer encoding of MarkovChain.advance with loop summarisation (z3, all m >= 0) validated against the real method; symbolic execution of ensemble advance / run_for with a symbolic clock (z3 per-path queries); counterexamples replayed"
 ASSUMPTIONS = [
     "loop summarisation lemma of pyint (a loop adding a loop-invariant amount c per iteration adds c*max(N,0))",
-    "time.time() returns non-decreasing instants; progress printing is disabled (ParallelTempering.run_for: sys.stdout and the divmod of its time-left message are no-op stubs)",
+    "the time budget (minutes, hours, days) is any non-negative real triple; time.time() returns non-decreasing instants; progress printing is disabled (ParallelTempering.run_for: sys.stdout and the divmod of its time-left message are no-op stubs)",
     "ParallelTempering.run_for is driven with take_steps / swap as counting stubs (their behaviour is decided under C08); swap cycles faster than 1/2 s (more than 4 cycles per clock check) are outside the explored bound",
     "the multiprocessing pool is its map contract (pickling round trip outside)",
 ]
@@ -167,15 +167,17 @@ def run_for_keeps_stepping_until_the_budget_is_used(h, iters, regime):
     h.patch(base, both=True, time=clock)
     h.patch(base, int=stubs.sym_int)
     minutes = h.real("minutes", lo=0)
+    hours = h.real("hours", lo=0)
+    days = h.real("days", lo=0)
     m0 = h.mark()
     try:
-        ch.run_for(minutes=minutes)
+        ch.run_for(minutes=minutes, hours=hours, days=days)
     finally:
         h.defined("run_for never divides by zero (the clock may not have advanced between two readings)", 0.0, since=m0)
     # parse the log: time(start) [steps* time(check)]*
     times = [k for k, e in enumerate(log) if e[0] == "time"]
     start = log[times[0]][1]
-    end = start + minutes * 60.0
+    end = start + minutes * 60.0 + hours * 3600.0 + days * 86400.0
     for a in range(1, len(times)):
         seg = log[times[a - 1] + 1:times[a]]
         nsteps = len(seg)
@@ -246,16 +248,17 @@ def tempering_run_for_keeps_cycling_until_the_budget_is_used(h, iters, regime):
     h.patch(par, both=True, time=clock, sys=_Quiet, divmod=lambda a, b: (0, 0))
     h.patch(par, int=stubs.sym_int)
     minutes = h.real("minutes", lo=0)
+    hours = h.real("hours", lo=0)
     interval = h.choice_int("swap_interval", 1, 2)
     pt = PT()
     m0 = h.mark()
     try:
-        pt.run_for(minutes=minutes, swap_interval=interval)
+        pt.run_for(minutes=minutes, hours=hours, swap_interval=interval)
     finally:
         h.defined("run_for never divides by zero (the clock may not have advanced over the timing cycle)", 0.0, since=m0)
     times = [k for k, e in enumerate(log) if e[0] == "time"]
     start = log[times[0]][1]
-    end = start + minutes * 60.0
+    end = start + minutes * 60.0 + hours * 3600.0
     for k, e in enumerate(log):
         if e[0] == "steps":
             h.same(f"event {k}: every batch of steps is one swap interval long", e[1], interval)
